@@ -99,3 +99,64 @@ def contains(path, needles):
     """Which of the byte-string needles occur in the file."""
     data = open(path, "rb").read()
     return [n for n in needles if (n if isinstance(n, bytes) else n.encode()) in data]
+
+
+def garble_std_snapshot(garble, garble_flags=(), env_extra=None):
+    """A GOCACHE holding the standard library as compiled through THIS garble binary's toolexec with
+    these garble flags and a GOGARBLE that selects no std package (so std is unobfuscated and its
+    entries depend on nothing under test).  Built once per (garble binary, flags) and kept under
+    /verif/.cache/gstd; callers copy it, so that a "cold" build of a module costs seconds."""
+    import fcntl, hashlib, json
+    key = hashlib.sha256((sha256_file(garble) + repr(sorted(garble_flags)) + repr(sorted((env_extra or {}).items()))).encode()).hexdigest()[:24]
+    root = os.path.join(vlib.CACHE, "gstd")
+    os.makedirs(root, exist_ok=True)
+    out = os.path.join(root, key)
+    lock = open(os.path.join(root, key + ".lock"), "w")
+    fcntl.flock(lock, fcntl.LOCK_EX)
+    try:
+        if os.path.exists(os.path.join(out, "ok")):
+            return os.path.join(out, "gocache")
+        for e in os.listdir(root):
+            p = os.path.join(root, e)
+            if os.path.isdir(p) and len([x for x in os.listdir(root) if os.path.isdir(os.path.join(root, x))]) > 4:
+                shutil.rmtree(p, ignore_errors=True)
+        shutil.rmtree(out, ignore_errors=True)
+        os.makedirs(out)
+        proj = Project("gstd-" + key, {"main.go": 'package main\n\nimport (\n\t"encoding/json"\n\t"errors"\n\t"fmt"\n\t"os"\n\t"reflect"\n\t"sort"\n\t"strings"\n\t"sync"\n\t"time"\n)\n\n'
+                       'func main() { fmt.Println(os.Args, reflect.TypeOf(1), strings.ToUpper("x"), errors.New("e"), sort.IsSorted(nil), time.Second); var m sync.Mutex; m.Lock(); json.Marshal(1) }\n'},
+                       module="gstd.invalid/hello")
+        c = Caches.__new__(Caches)
+        c.gocache = os.path.join(out, "gocache")
+        c.garble_cache = vlib.sub("gstd-garblecache")
+        c.tmp = vlib.sub("gstd-tmp")
+        if os.path.isdir(vlib.STD_SNAPSHOT):
+            vlib.run(["cp", "-a", vlib.STD_SNAPSHOT, c.gocache], check=True)
+        else:
+            os.makedirs(c.gocache)
+        ex = dict(env_extra or {})
+        ex["GOGARBLE"] = "gstd.invalid/hello"
+        r = garble_build(garble, proj, os.path.join(proj.dir, "h.bin"), garble_flags=list(garble_flags), caches=c, extra_env=ex, timeout=1500)
+        if r.returncode != 0:
+            return None
+        open(os.path.join(out, "ok"), "w").close()
+        return c.gocache
+    finally:
+        lock.close()
+
+
+def module_cold_caches(garble, name, garble_flags=(), env_extra=None):
+    """Caches that are empty for everything a module build can key, but already hold the
+    (unobfuscated, garble-toolexec-compiled) standard library for this garble binary and flags."""
+    snap = garble_std_snapshot(garble, garble_flags, env_extra)
+    c = Caches.__new__(Caches)
+    c.gocache = vlib.sub("gocache-" + name)
+    shutil.rmtree(c.gocache, ignore_errors=True)
+    if snap:
+        vlib.run(["cp", "-a", snap, c.gocache], check=True)
+    else:
+        c.gocache = vlib.fresh_gocache("gocache-" + name)
+    c.garble_cache = vlib.sub("garblecache-" + name)
+    shutil.rmtree(c.garble_cache, ignore_errors=True)
+    os.makedirs(c.garble_cache)
+    c.tmp = vlib.sub("tmp-" + name)
+    return c
